@@ -1,6 +1,6 @@
 import SlVerif.Model.Bip32
 import SlVerif.Proofs.GroupOracle
-import Mathlib.Data.Nat.Digits.Defs
+import Mathlib.Data.Nat.Digits.Lemmas
 import Mathlib.Tactic.Ring
 import Mathlib.Tactic.NormNum
 /-
@@ -62,5 +62,440 @@ theorem fingerprintP_eq (h : Query → Bytes) (p : Bytes) :
       else .ok ((h (.ripemd160 (h (.sha256 (sec1 p))))).take 4) := by
   unfold fingerprintP fingerprint
   by_cases h1 : (sec1 p).length = 33 <;> simp [h1]
+
+
+/-! ### the loop -/
+
+def Outcome.bind {α β : Type} : Outcome α → (α → Outcome β) → Outcome β
+  | .ok a, f => f a
+  | .err e, _ => .err e
+  | .panic m, _ => .panic m
+
+@[simp] theorem Outcome.bind_ok {α β : Type} (a : α) (f : α → Outcome β) : (Outcome.ok a).bind f = f a := rfl
+@[simp] theorem Outcome.bind_err {α β : Type} (e : Err) (f : α → Outcome β) : (Outcome.err e : Outcome α).bind f = .err e := rfl
+@[simp] theorem Outcome.bind_panic {α β : Type} (m : String) (f : α → Outcome β) : (Outcome.panic m : Outcome α).bind f = .panic m := rfl
+
+theorem Outcome.bind_assoc {α β γ : Type} (x : Outcome α) (f : α → Outcome β) (g : β → Outcome γ) :
+    (x.bind f).bind g = x.bind (fun a => (f a).bind g) := by cases x <;> rfl
+
+/-- one iteration of the loop body of `derive_xpub`: fingerprint of the current key, then `derive_child_pubkey` -/
+def stepP (h : Query → Bytes) (s : Walk) (idx : ℕ) : Outcome Walk :=
+  (fingerprintP h s.key).bind fun fp => (deriveChildP h s.key s.chainCode idx).bind fun c =>
+    .ok { key := c.key, chainCode := c.chainCode, parentFp := fp, offsets := s.offsets ++ [c.offset] }
+
+theorem walkP_nil (h : Query → Bytes) (s : Walk) : walkP h s [] = .ok s := rfl
+
+theorem walkP_cons (h : Query → Bytes) (s : Walk) (i : ℕ) (rest : List ℕ) :
+    walkP h s (i :: rest) = (stepP h s i).bind fun s' => walkP h s' rest := by
+  show Id.run (walk (pureO h) s (i :: rest)) = _
+  rw [walk]
+  unfold stepP
+  show (match fingerprintP h s.key with
+        | .panic msg => Outcome.panic msg
+        | .err e => .err e
+        | .ok fp => match deriveChildP h s.key s.chainCode i with
+          | .panic msg => .panic msg
+          | .err e => .err e
+          | .ok c => walkP h { key := c.key, chainCode := c.chainCode, parentFp := fp, offsets := s.offsets ++ [c.offset] } rest) = _
+  cases fingerprintP h s.key <;> simp only [Outcome.bind]
+  cases deriveChildP h s.key s.chainCode i <;> rfl
+
+theorem walkP_append (h : Query → Bytes) (s : Walk) (p q : List ℕ) :
+    walkP h s (p ++ q) = (walkP h s p).bind fun w => walkP h w q := by
+  induction p generalizing s with
+  | nil => rfl
+  | cons i rest ih =>
+    rw [List.cons_append, walkP_cons, walkP_cons, Outcome.bind_assoc]
+    congr 1; funext s'; exact ih s'
+
+/-- the loop with one more component at the END of the path -/
+theorem walkP_snoc (h : Query → Bytes) (s : Walk) (p : List ℕ) (i : ℕ) :
+    walkP h s (p ++ [i]) = (walkP h s p).bind fun w => stepP h w i := by
+  rw [walkP_append]; congr 1; funext w
+  rw [walkP_cons]; cases stepP h w i <;> rfl
+
+theorem deriveXpubOffsetsP_eq (h : Query → Bytes) (v : ℕ) (root cc : Bytes) (path : List ℕ) :
+    deriveXpubOffsetsP h v root cc path =
+      if root = identity33 then .err .pubkeyPointAtInfinity
+      else if path.length > 255 then .err .pathTooDeep
+      else (walkP h { key := root, chainCode := cc, parentFp := [0, 0, 0, 0], offsets := [] } path).bind fun w =>
+        .ok ({ version := v, depth := path.length, parentFp := w.parentFp, childNumber := finalChildNumber path,
+               chainCode := w.chainCode, key := w.key }, w.offsets) := by
+  by_cases h1 : root = identity33
+  · rw [if_pos h1]; simp [deriveXpubOffsetsP, deriveXpubOffsets, h1]
+  · rw [if_neg h1]
+    by_cases h2 : path.length > 255
+    · rw [if_pos h2]; simp [deriveXpubOffsetsP, deriveXpubOffsets, h1, h2]
+    · rw [if_neg h2]
+      have h2' : ¬ (255 < path.length) := h2
+      have e : deriveXpubOffsetsP h v root cc path =
+          (match walkP h { key := root, chainCode := cc, parentFp := [0, 0, 0, 0], offsets := [] } path with
+            | .panic msg => Outcome.panic msg
+            | .err e => .err e
+            | .ok w => .ok ({ version := v, depth := path.length, parentFp := w.parentFp,
+                              childNumber := finalChildNumber path, chainCode := w.chainCode, key := w.key },
+                            w.offsets)) := by
+        simp only [deriveXpubOffsetsP, deriveXpubOffsets, h1, h2', if_false]
+        rfl
+      rw [e]
+      cases walkP h { key := root, chainCode := cc, parentFp := [0, 0, 0, 0], offsets := [] } path <;> rfl
+
+theorem deriveXpubP_eq (h : Query → Bytes) (v : ℕ) (root cc : Bytes) (path : List ℕ) :
+    deriveXpubP h v root cc path = (deriveXpubOffsetsP h v root cc path).bind fun r => .ok r.1 := by
+  show (match deriveXpubOffsetsP h v root cc path with
+        | .ok (x, _) => Outcome.ok x
+        | .err e => .err e
+        | .panic msg => .panic msg) = _
+  cases deriveXpubOffsetsP h v root cc path <;> rfl
+
+/-! ### Base58 -/
+
+theorem digitsAux_eq_digits {b : ℕ} (hb : 1 < b) : ∀ fuel n, n ≤ fuel → digitsAux b fuel n = Nat.digits b n
+  | 0, n, hn => by
+      have : n = 0 := by omega
+      subst this; simp [digitsAux]
+  | fuel+1, n, hn => by
+      rw [digitsAux]
+      by_cases h0 : n = 0
+      · subst h0; simp
+      · have hlt : n / b < n := Nat.div_lt_self (Nat.pos_of_ne_zero h0) hb
+        rw [if_neg h0, Nat.digits_def' hb (Nat.pos_of_ne_zero h0), digitsAux_eq_digits hb fuel (n / b) (by omega)]
+
+theorem digitsLE_eq_digits {b : ℕ} (hb : 1 < b) (n : ℕ) : digitsLE b n = Nat.digits b n :=
+  digitsAux_eq_digits hb n n le_rfl
+
+/-- a big-endian fold is `Nat.ofDigits` of the reversed list -/
+theorem foldl_eq_ofDigits (b : ℕ) (l : List ℕ) :
+    l.foldl (fun acc d => acc * b + d) 0 = Nat.ofDigits b l.reverse := by
+  induction l using List.reverseRecOn with
+  | nil => rfl
+  | append_singleton xs x ih =>
+    rw [List.foldl_append, List.foldl_cons, List.foldl_nil, ih, List.reverse_append, List.reverse_singleton,
+      List.singleton_append, Nat.ofDigits_cons]
+    ring
+
+theorem foldl_replicate_zero (b z : ℕ) : (List.replicate z 0).foldl (fun acc d => acc * b + d) 0 = 0 := by
+  induction z with
+  | zero => rfl
+  | succ k ih => rw [List.replicate_succ, List.foldl_cons]; simpa using ih
+
+theorem countLeading_split {α : Type} [DecidableEq α] (a : α) (l : List α) :
+    ∃ r, l = List.replicate (countLeading a l) a ++ r ∧ r.head? ≠ some a := by
+  induction l with
+  | nil => exact ⟨[], rfl, by simp⟩
+  | cons x xs ih =>
+    by_cases hx : x = a
+    · obtain ⟨r, e, hr⟩ := ih
+      refine ⟨r, ?_, hr⟩
+      rw [countLeading, if_pos hx, List.replicate_succ, List.cons_append, ← e, hx]
+    · refine ⟨x :: xs, ?_, ?_⟩
+      · rw [countLeading, if_neg hx]; rfl
+      · simpa using hx
+
+theorem countLeading_replicate_append {α : Type} [DecidableEq α] (a : α) (z : ℕ) (r : List α)
+    (hr : r.head? ≠ some a) : countLeading a (List.replicate z a ++ r) = z := by
+  induction z with
+  | zero =>
+    cases r with
+    | nil => rfl
+    | cons x xs =>
+      have : x ≠ a := by simpa using hr
+      simp [countLeading, this]
+  | succ k ih => rw [List.replicate_succ, List.cons_append, countLeading, if_pos rfl, ih]
+
+theorem alphabet_idxOf : ∀ d, d < 58 → alphabet.idxOf (alphabet.getD d '1') = d := by decide
+theorem alphabet_one : ∀ d, d < 58 → (alphabet.getD d '1' = '1' ↔ d = 0) := by decide
+theorem alphabet_contains : ∀ d, d < 58 → alphabet.contains (alphabet.getD d '1') = true := by decide
+
+/-- C12 `base58_roundtrip`: the native decoder inverts the native encoder on every byte string -/
+theorem base58Decode_encode (bs : Bytes) (hb : ∀ b ∈ bs, b < 256) : base58Decode (base58Encode bs) = some bs := by
+  obtain ⟨r, hsplit, hr⟩ := countLeading_split 0 bs
+  set z := countLeading 0 bs with hz
+  have hrlt : ∀ b ∈ r, b < 256 := fun b hb' => hb b (by rw [hsplit]; exact List.mem_append_right _ hb')
+  -- the number
+  have hn : beToNat bs = Nat.ofDigits 256 r.reverse := by
+    rw [hsplit, beToNat, List.foldl_append, foldl_replicate_zero, foldl_eq_ofDigits]
+  set n := beToNat bs with hnn
+  set L := Nat.digits 58 n with hL
+  have hLlt : ∀ d ∈ L, d < 58 := fun d hd => Nat.digits_lt_base (by norm_num) hd
+  -- the encoding
+  have henc : base58Encode bs = List.replicate z '1' ++ L.reverse.map (fun d => alphabet.getD d '1') := by
+    rw [base58Encode, digitsLE_eq_digits (by norm_num)]
+  -- head of the digit part is not '1'
+  have hhead : (L.reverse.map (fun d => alphabet.getD d '1')).head? ≠ some '1' := by
+    by_cases hn0 : n = 0
+    · have : L = [] := by rw [hL, hn0]; simp
+      rw [this]; simp
+    · have hne : L ≠ [] := Nat.digits_ne_nil_iff_ne_zero.mpr hn0
+      have hlast := Nat.getLast_digit_ne_zero 58 hn0
+      rw [List.head?_map, List.head?_reverse, List.getLast?_eq_some_getLast hne]
+      simp only [Option.map_some, ne_eq, Option.some.injEq]
+      rw [alphabet_one _ (hLlt _ (List.getLast_mem hne))]
+      exact hlast
+  rw [henc, base58Decode]
+  have hall : (List.replicate z '1' ++ L.reverse.map (fun d => alphabet.getD d '1')).all
+      (fun c => alphabet.contains c) = true := by
+    rw [List.all_eq_true]
+    intro c hc
+    rcases List.mem_append.1 hc with hc | hc
+    · rw [(List.mem_replicate.1 hc).2]; decide
+    · obtain ⟨d, hd, rfl⟩ := List.mem_map.1 hc
+      exact alphabet_contains d (hLlt d (List.mem_reverse.1 hd))
+  rw [if_pos hall]
+  simp only
+  rw [countLeading_replicate_append _ _ _ hhead]
+  have hmap : (List.replicate z '1' ++ L.reverse.map (fun d => alphabet.getD d '1')).map (fun c => alphabet.idxOf c)
+      = List.replicate z 0 ++ L.reverse := by
+    rw [List.map_append, List.map_replicate, List.map_map]
+    congr 1
+    conv_rhs => rw [← List.map_id L.reverse]
+    apply List.map_congr_left
+    intro d hd
+    exact alphabet_idxOf d (hLlt d (List.mem_reverse.1 hd))
+  rw [hmap, List.foldl_append, foldl_replicate_zero, foldl_eq_ofDigits, List.reverse_reverse, hL,
+    Nat.ofDigits_digits, digitsLE_eq_digits (by norm_num), hn]
+  rw [Nat.digits_ofDigits 256 (by norm_num) r.reverse (fun l hl => hrlt l (List.mem_reverse.1 hl)), List.reverse_reverse,
+    ← hsplit]
+  intro hne
+  rw [List.getLast_reverse]
+  cases r with
+  | nil => simp at hne
+  | cons x xs => simpa using hr
+
+/-! ### `ok` results, step by step (no assumption on the oracle) -/
+
+theorem Outcome.bind_eq_ok {α β : Type} {x : Outcome α} {f : α → Outcome β} {b : β} (e : x.bind f = .ok b) :
+    ∃ a, x = .ok a ∧ f a = .ok b := by
+  cases x with
+  | ok a => exact ⟨a, rfl, e⟩
+  | err _ => simp at e
+  | panic _ => simp at e
+
+/-- first 4 bytes of `RIPEMD160(SHA256(key))` -/
+def fp4 (h : Query → Bytes) (key : Bytes) : Bytes := (h (.ripemd160 (h (.sha256 (sec1 key))))).take 4
+
+theorem fingerprintP_ok {h : Query → Bytes} {p fp : Bytes} (e : fingerprintP h p = .ok fp) : fp = fp4 h p := by
+  rw [fingerprintP_eq] at e
+  split_ifs at e
+  exact (Outcome.ok.inj e).symm
+
+theorem deriveChildP_ok {h : Query → Bytes} {K c : Bytes} {i : ℕ} {ch : Child} (e : deriveChildP h K c i = .ok ch) :
+    isNormal i = true ∧ IL h K c i ≤ secpQ ∧ ch.offset = IL h K c i % secpQ ∧ ch.key = childKey h K c i ∧
+      ch.key ≠ identity33 ∧ ch.chainCode = IR h K c i := by
+  rw [deriveChildP_eq] at e
+  split_ifs at e with h1 h2 h3
+  have := Outcome.ok.inj e
+  subst this
+  refine ⟨by simpa using h1, by omega, rfl, rfl, h3, rfl⟩
+
+theorem stepP_ok {h : Query → Bytes} {s w : Walk} {i : ℕ} (e : stepP h s i = .ok w) :
+    ∃ ch, deriveChildP h s.key s.chainCode i = .ok ch ∧
+      w = { key := ch.key, chainCode := ch.chainCode, parentFp := fp4 h s.key, offsets := s.offsets ++ [ch.offset] } := by
+  unfold stepP at e
+  obtain ⟨fp, e1, e⟩ := Outcome.bind_eq_ok e
+  obtain ⟨ch, e2, e⟩ := Outcome.bind_eq_ok e
+  refine ⟨ch, e2, ?_⟩
+  rw [← fingerprintP_ok e1]; exact (Outcome.ok.inj e).symm
+
+/-- `CKDpub` iterated along a path, on (key, chain code) -/
+def ckdIter (h : Query → Bytes) : Bytes × Bytes → List ℕ → Outcome (Bytes × Bytes)
+  | kc, [] => .ok kc
+  | kc, i :: rest => (deriveChildP h kc.1 kc.2 i).bind fun c => ckdIter h (c.key, c.chainCode) rest
+
+theorem walkP_ok_ckdIter {h : Query → Bytes} {p : List ℕ} : ∀ {s w : Walk}, walkP h s p = .ok w →
+    ckdIter h (s.key, s.chainCode) p = .ok (w.key, w.chainCode) ∧ w.offsets.length = s.offsets.length + p.length ∧
+    (p = [] → w.parentFp = s.parentFp) := by
+  induction p with
+  | nil => intro s w e; rw [walkP_nil] at e; cases Outcome.ok.inj e; exact ⟨rfl, rfl, fun _ => rfl⟩
+  | cons i rest ih =>
+    intro s w e
+    rw [walkP_cons] at e
+    obtain ⟨s', e1, e2⟩ := Outcome.bind_eq_ok e
+    obtain ⟨ch, e3, rfl⟩ := stepP_ok e1
+    obtain ⟨a, b, _⟩ := ih e2
+    refine ⟨?_, ?_, fun hn => by simp at hn⟩
+    · rw [ckdIter]; simp only; rw [e3]; exact a
+    · rw [b]; simp; omega
+
+/-! ### with the group structure of a `GroupOracle` -/
+
+variable {h : Query → Bytes} {G : Type} [AddCommGroup G] [Module Zq G] (go : GroupOracle h G)
+
+theorem identity33_eq : identity33 = List.replicate 33 0 := rfl
+
+theorem sec1_of_canon {p : Bytes} (hp : go.Canon p) (hne : p ≠ identity33) : sec1 p = p ∧ (sec1 p).length = 33 := by
+  rw [sec1, if_neg hne]; exact ⟨rfl, go.canon_length hp⟩
+
+theorem fingerprintP_canon {p : Bytes} (hp : go.Canon p) (hne : p ≠ identity33) : fingerprintP h p = .ok (fp4 h p) := by
+  rw [fingerprintP_eq, if_neg (by rw [(sec1_of_canon go hp hne).2]; simp)]; rfl
+
+theorem childKey_canon {K : Bytes} (hK : go.Canon K) (c : Bytes) (i : ℕ) :
+    go.Canon (childKey h K c i) ∧ go.dec (childKey h K c i) = go.dec K + ((IL h K c i % secpQ : ℕ) : Zq) • go.gen := by
+  refine ⟨go.canon_add (go.canon_mulGen _) hK, ?_⟩
+  rw [childKey, go.add (go.canon_mulGen _) hK, go.mulGen, add_comm]
+
+/-- the per-step facts of C12 `additive` -/
+theorem deriveChildP_ok_group {K c : Bytes} {i : ℕ} {ch : Child} (hK : go.Canon K) (e : deriveChildP h K c i = .ok ch) :
+    go.Canon ch.key ∧ ch.key ≠ identity33 ∧ ch.offset < secpQ ∧ go.dec ch.key = go.dec K + (ch.offset : Zq) • go.gen := by
+  obtain ⟨_, _, ho, hk, hne, _⟩ := deriveChildP_ok e
+  refine ⟨hk ▸ (childKey_canon go hK c i).1, hne, ho ▸ Nat.mod_lt _ (by decide), ?_⟩
+  rw [hk, ho]; exact (childKey_canon go hK c i).2
+
+/-- `derive_child_pubkey` never panics (the model has no panic path in it at all) -/
+theorem deriveChildP_ne_panic (h : Query → Bytes) (K c : Bytes) (i : ℕ) (m : String) : deriveChildP h K c i ≠ .panic m := by
+  rw [deriveChildP_eq]; split_ifs <;> simp
+
+/-- sum of offsets in `Zq` -/
+def offSum (l : List ℕ) : Zq := (l.map (fun o => (o : Zq))).sum
+
+theorem offSum_snoc (l : List ℕ) (o : ℕ) : offSum (l ++ [o]) = offSum l + (o : Zq) := by
+  simp [offSum]
+
+/-- invariant of the loop: the current key is a valid non-identity point = root + (Σ offsets)•G -/
+structure Good (root : Bytes) (s : Walk) : Prop where
+  canon : go.Canon s.key
+  ne : s.key ≠ identity33
+  add : go.dec s.key = go.dec root + offSum s.offsets • go.gen
+  lt : ∀ o ∈ s.offsets, o < secpQ
+
+theorem Good.init {root : Bytes} (hr : go.Canon root) (hne : root ≠ identity33) (cc : Bytes) :
+    Good go root { key := root, chainCode := cc, parentFp := [0, 0, 0, 0], offsets := [] } :=
+  ⟨hr, hne, by simp [offSum], by simp⟩
+
+theorem stepP_good {root : Bytes} {s : Walk} (g : Good go root s) (i : ℕ) :
+    (∀ m, stepP h s i ≠ .panic m) ∧ (∀ w, stepP h s i = .ok w → Good go root w) ∧
+    stepP h s i = (deriveChildP h s.key s.chainCode i).bind fun c =>
+      .ok { key := c.key, chainCode := c.chainCode, parentFp := fp4 h s.key, offsets := s.offsets ++ [c.offset] } := by
+  have e : stepP h s i = (deriveChildP h s.key s.chainCode i).bind fun c =>
+      .ok { key := c.key, chainCode := c.chainCode, parentFp := fp4 h s.key, offsets := s.offsets ++ [c.offset] } := by
+    rw [stepP, fingerprintP_canon go g.canon g.ne]; rfl
+  refine ⟨?_, ?_, e⟩
+  · intro m hm
+    rw [e] at hm
+    cases hd : deriveChildP h s.key s.chainCode i with
+    | ok c => rw [hd] at hm; simp at hm
+    | err _ => rw [hd] at hm; simp at hm
+    | panic m' => exact deriveChildP_ne_panic h _ _ _ _ hd
+  · intro w hw
+    obtain ⟨ch, e3, rfl⟩ := stepP_ok hw
+    obtain ⟨a, b, c, d⟩ := deriveChildP_ok_group go g.canon e3
+    refine ⟨a, b, ?_, ?_⟩
+    · simp only; rw [d, g.add, offSum_snoc, add_smul, add_assoc]
+    · intro o ho
+      rcases List.mem_append.1 ho with ho | ho
+      · exact g.lt o ho
+      · rw [List.mem_singleton.1 ho]; exact c
+
+theorem walkP_good {root : Bytes} (p : List ℕ) : ∀ {s : Walk}, Good go root s →
+    (∀ m, walkP h s p ≠ .panic m) ∧ (∀ w, walkP h s p = .ok w → Good go root w) := by
+  induction p with
+  | nil => intro s g; rw [walkP_nil]; exact ⟨fun m => by simp, fun w e => by cases Outcome.ok.inj e; exact g⟩
+  | cons i rest ih =>
+    intro s g
+    obtain ⟨np, gk, _⟩ := stepP_good go g i
+    rw [walkP_cons]
+    cases hs : stepP h s i with
+    | ok s' => exact ih (gk s' hs)
+    | err e => exact ⟨fun m => by simp, fun w e => by simp at e⟩
+    | panic m => exact absurd hs (np m)
+
+/-- under `Good`, the loop is ok exactly when the iterated CKDpub is -/
+theorem walkP_ok_of_ckdIter {root : Bytes} (p : List ℕ) : ∀ {s : Walk} {kc : Bytes × Bytes}, Good go root s →
+    ckdIter h (s.key, s.chainCode) p = .ok kc → ∃ w, walkP h s p = .ok w := by
+  induction p with
+  | nil => intro s kc _ _; exact ⟨s, rfl⟩
+  | cons i rest ih =>
+    intro s kc g e
+    rw [ckdIter] at e
+    obtain ⟨ch, e1, e2⟩ := Outcome.bind_eq_ok e
+    obtain ⟨_, gk, es⟩ := stepP_good go g i
+    rw [walkP_cons, es]
+    simp only at e1
+    rw [e1]
+    simp only [Outcome.bind_ok]
+    refine ih (gk _ ?_) e2
+    rw [es, e1]; rfl
+
+/-! ### lengths -/
+
+/-- output lengths of the hash functions (SHA-256: 32, HMAC-SHA512: 64, RIPEMD-160: 20 bytes) -/
+structure HashLens (h : Query → Bytes) : Prop where
+  sha256 : ∀ d, (h (.sha256 d)).length = 32
+  hmac : ∀ k d, (h (.hmacSha512 k d)).length = 64
+  ripemd : ∀ d, (h (.ripemd160 d)).length = 20
+
+theorem fp4_length {h : Query → Bytes} (hl : HashLens h) (k : Bytes) : (fp4 h k).length = 4 := by
+  rw [fp4, List.length_take, hl.ripemd]; rfl
+
+theorem IR_length {h : Query → Bytes} (hl : HashLens h) (K c : Bytes) (i : ℕ) : (IR h K c i).length = 32 := by
+  rw [IR, hmacI, List.length_drop, hl.hmac]
+
+theorem walkP_lens {h : Query → Bytes} (hl : HashLens h) (p : List ℕ) : ∀ {s w : Walk}, walkP h s p = .ok w →
+    s.chainCode.length = 32 → s.parentFp.length = 4 → w.chainCode.length = 32 ∧ w.parentFp.length = 4 := by
+  induction p with
+  | nil => intro s w e a b; rw [walkP_nil] at e; cases Outcome.ok.inj e; exact ⟨a, b⟩
+  | cons i rest ih =>
+    intro s w e _ _
+    rw [walkP_cons] at e
+    obtain ⟨s', e1, e2⟩ := Outcome.bind_eq_ok e
+    obtain ⟨ch, e3, rfl⟩ := stepP_ok e1
+    refine ih e2 ?_ (fp4_length hl _)
+    simp only; rw [(deriveChildP_ok e3).2.2.2.2.2]; exact IR_length hl _ _ _
+
+theorem serialize_eq (x : XPub) : serialize x =
+    natToBe 4 x.version ++ natToBe 1 x.depth ++ x.parentFp ++ natToBe 4 x.childNumber ++ x.chainCode ++ sec1 x.key := rfl
+
+theorem toStringP_eq (h : Query → Bytes) (x : XPub) (encoded : Bool) :
+    toStringP h x encoded =
+      if (serialize x).length ≠ 78 then .panic "Invalid serialized extended public key length, must be 78 bytes"
+      else if encoded then .ok (base58CheckP h (serialize x)) else .ok (bytesToHex (serialize x)) := by
+  unfold toStringP Bip32.toString
+  by_cases h1 : (serialize x).length = 78 <;> cases encoded <;> simp [h1]
+
+theorem base58CheckP_eq (h : Query → Bytes) (payload : Bytes) :
+    base58CheckP h payload =
+      String.ofList (base58Encode (payload ++ (h (.sha256 (h (.sha256 payload)))).take 4)) := rfl
+
+
+/-! ### inversion of `Ok` results -/
+
+/-- the initial loop state of `derive_xpub` -/
+abbrev initWalk (root cc : Bytes) : Walk := { key := root, chainCode := cc, parentFp := [0, 0, 0, 0], offsets := [] }
+
+theorem deriveXpubOffsetsP_ok {h : Query → Bytes} {v : ℕ} {root cc : Bytes} {path : List ℕ} {x : XPub} {offs : List ℕ}
+    (e : deriveXpubOffsetsP h v root cc path = .ok (x, offs)) :
+    root ≠ identity33 ∧ path.length ≤ 255 ∧ ∃ w, walkP h (initWalk root cc) path = .ok w ∧ offs = w.offsets ∧
+      x = { version := v, depth := path.length, parentFp := w.parentFp, childNumber := finalChildNumber path,
+            chainCode := w.chainCode, key := w.key } := by
+  rw [deriveXpubOffsetsP_eq] at e
+  by_cases h1 : root = identity33
+  · rw [if_pos h1] at e; simp at e
+  · rw [if_neg h1] at e
+    by_cases h2 : path.length > 255
+    · rw [if_pos h2] at e; simp at e
+    · rw [if_neg h2] at e
+      obtain ⟨w, ew, e⟩ := Outcome.bind_eq_ok e
+      have := Outcome.ok.inj e
+      refine ⟨h1, by omega, w, ew, (congrArg Prod.snd this).symm, (congrArg Prod.fst this).symm⟩
+
+theorem deriveXpubP_ok {h : Query → Bytes} {v : ℕ} {root cc : Bytes} {path : List ℕ} {x : XPub}
+    (e : deriveXpubP h v root cc path = .ok x) : ∃ offs, deriveXpubOffsetsP h v root cc path = .ok (x, offs) := by
+  rw [deriveXpubP_eq] at e
+  obtain ⟨⟨x', offs⟩, e1, e2⟩ := Outcome.bind_eq_ok e
+  cases Outcome.ok.inj e2
+  exact ⟨offs, e1⟩
+
+theorem deriveXpubP_of_walk {h : Query → Bytes} (v : ℕ) {root cc : Bytes} {path : List ℕ} {w : Walk}
+    (h1 : root ≠ identity33) (h2 : path.length ≤ 255) (ew : walkP h (initWalk root cc) path = .ok w) :
+    deriveXpubP h v root cc path =
+      .ok { version := v, depth := path.length, parentFp := w.parentFp,
+            childNumber := finalChildNumber path, chainCode := w.chainCode, key := w.key } := by
+  rw [deriveXpubP_eq, deriveXpubOffsetsP_eq, if_neg h1, if_neg (by omega), ew]; rfl
+
+theorem hardenedBit_eq : hardenedBit = 2147483648 := by decide
+theorem isNormal_iff (i : ℕ) : isNormal i = true ↔ i < hardenedBit := by
+  rw [isNormal, decide_eq_true_iff]
+theorem isNormal_false_iff (i : ℕ) : isNormal i = false ↔ hardenedBit ≤ i := by
+  rw [isNormal, decide_eq_false_iff_not, not_lt]
 
 end SlVerif.Bip32
